@@ -86,3 +86,12 @@ Theorem C09_dollar_not_aliased : forall o d n r n',
   /\ (forall i, In i (ConvertId.cells r) -> ~ In i (ConvertId.cells d))
   /\ Convert.convert_output o (Convert.convert_input (ConvertId.erase d)) = Convert.Ok (ConvertId.erase r).
 Proof. exact ConvertFresh.dollar_fresh. Qed.
+
+(* A YaqlInterface the host builds on its own context chain, called with positional and keyword parameters: the
+   parameters live in a fresh child for that call; EVERY context of the host's chain - the one the interface was built
+   on included, and including its `$` - is bit for bit what it was (variables, functions, parent). *)
+Theorem C09_interface_call_frame : forall fuel host c pos kw e s' r,
+  iface_call fuel host c pos kw e = (s', r) ->
+  (exists h l, heap s' = host ++ h /\ log s' = l)
+  /\ forall i, i < length host -> nth_error (heap s') i = nth_error host i.
+Proof. exact iface_call_host_frame. Qed.
